@@ -375,6 +375,11 @@ def cells(prop, tier):
                         pre=['0 <= lifeA <= 1 and 0 <= p1 <= 70 and 0 <= q1 <= 1'],
                         body='H.scen(%r, 1, 1, 2, 3, lifeA, 0, %d, p1, q1, 3, 1)' % (prop, pr),
                         tier=q, timeout=900, family=lp, weight=5))
+    # computation longer than the 60 s safety window on a healthy loop: waiters time out, look again and must keep waiting
+    out.append(Cell(name='%s_2t_long_computation' % lp, sig='prio_idx: int, p1: int, failmask: int',
+                    pre=['0 <= prio_idx <= 1 and 0 <= p1 <= 160 and 0 <= failmask <= 1'],
+                    body='H.scen(%r, 70, 1, 1, 65, 0, failmask, prio_idx, p1, 0, 2, 2)' % prop,
+                    tier=q, timeout=900, family=lp, weight=5))
     if prop == 'C06' or prop == 'C05':
         for gi, (dA, dB, dC, dur) in enumerate(GRID_QUICK[:2]):
             for ut in (False, True):
